@@ -27,18 +27,22 @@ CLAIMS = {
         note=TB + "Modelled not verified: str methods (ASCII), literal_eval/int()/float() on the value grammar; float(repr(x)) == x is CPython's.",
     ),
     "C01": dict(
-        technique="Lean 4 theorems on a statement-level model of the ReST emitter/scanner/parser + differential run; numpydoc/google by property predicate on the code",
+        technique="Lean 4 theorems on statement-level models of the emitters, scanners and parsers of all three docstring styles + differential run on emitted and mutated text",
         text=(
             "Kernel-checked: scanRest_spec_cons (the hand-rolled ReST scanner equals its specification on any token-clean "
             "text, unbounded) and C01_rest_nodefault_partial (emit->parse = identity for every summary and every non-empty "
             "list of typed, described, default-free parameters; induction over parameters and characters) about a "
             "statement-by-statement model of emit.docstring(rest)/_scan_phase_rest/_parse_phase_rest; the C17 theorems cover "
-            "the default sentence. The model is run against the code on every generated IR and on mutated text. For "
-            "numpydoc and google there is no Lean model yet: the round-trip predicate is evaluated on the real code only "
-            "(partial). Seven recorded finding classes delimit the domain on which the property holds today."
+            "the default sentence. numpydoc and google are modelled statement by statement too (entry emitters, "
+            "emit.docstring, the scan phase, the parse phase): scanLoop_keeps_lines (the line grouping drops, duplicates "
+            "or reorders no line of a section) and parseNumpy_emitted / parseGoogle_emitted (the entry parsers invert the "
+            "entry emitters on trimmed single-line entries); a whole-docstring round-trip theorem exists for ReST only "
+            "(partial). All models are run against the code on every generated IR and on mutated text, entry by entry and "
+            "as whole docstrings. The recorded finding classes delimit the domain on which the property holds today; a "
+            "failure is excused only when each of its differences is about a field of an entry a finding explains."
         ),
         design="§7 C01",
-        note=TB + "numpydoc/google are not modelled (predicate on the code only); word_wrap=False here (wrapping is C18).",
+        note=TB + "word_wrap=False here (wrapping is C18).",
     ),
     "C15": dict(
         technique="Lean 4 theorems (mutual induction over a generic AST) on the model of RewriteAtQuery + statement-level model of annotate/find tied by differential run; independent resolver as predicate",
@@ -47,9 +51,11 @@ CLAIMS = {
             "nested-inductive tree mirroring Python's ast field by field): visit_replaced (at most one replacement), "
             "visit_untouched (a sub-tree the search does not touch is returned unchanged, for any state), "
             "visitItems_frame/visitItems_length (in every statement list walked, untouched statements come back at the "
-            "same index; nothing dropped, duplicated or reordered), visit_search. annotate_ancestry and find_in_ast are "
-            "modelled statement by statement (executable, not yet the subject of a theorem) and tied to the code on every "
-            "generated module; the property predicate is an independent resolver over ast run against the real code for "
+            "same index; nothing dropped, duplicated or reordered), visit_search; find_sound (a total, fuel-indexed "
+            "transliteration of find_in_ast: whatever it returns carries the searched location or is named by one of the "
+            "search's segments - mutual induction over its two loops). annotate_ancestry is modelled statement by "
+            "statement (executable, no theorem). Both are tied to the code on every generated module, and a lookup after "
+            "an in-place rewrite is compared with a lookup on a fresh parse; the property predicate is an independent resolver over ast run against the real code for "
             "every case. The property is false today on several classes (eight recorded findings: D11, D12, D13, D25 and "
             "four more); on the remaining domain the predicate held on every case explored."
         ),
@@ -123,9 +129,13 @@ CLAIMS = {
             "Kernel-checked: Kinds.pres_class (one conversion keeps every parameter's prose, type and explicit default and only "
             "fills absent defaults), norm_pres (names and order kept; return entry kept or lost, never invented), norm_cls_idem, "
             "for ALL descriptions (no size bound). These theorems speak about Kinds.norm, an interface-level model of "
-            "emit.class_ followed by parse.class_ (the AST construction itself is not yet modelled statement by statement); "
-            "the tie is the differential run: for every generated description inside Kinds.dom the real emit -> ast.unparse -> "
-            "ast.parse -> parse result must equal Kinds.norm. The property predicate (names, order, types, prose, explicit "
+            "emit.class_ followed by parse.class_. Behind it, the attribute half is modelled statement by statement "
+            "(ClassAttr: param2ast, the AnnAssign branch of parse.class_, _infer_default) and ClassAttr.attrRT_eq_norm "
+            "proves that this statement-level round trip IS Kinds.normClassParam on the typed, literal-default domain (six "
+            "staged theorems by shape of type and default, each with a concrete instance). The ties are differential runs: "
+            "whole description and every entry alone (Kinds.dom_single / norm_single justify the decomposition) against the "
+            "real emit -> ast.unparse -> ast.parse -> parse, plus param2ast and the attribute parser against the real "
+            "functions on every entry. The property predicate (names, order, types, prose, explicit "
             "defaults with their Python type, permitted normalisation only) runs on the real code for every case, inside and "
             "outside that domain; the classes where it fails today are recorded findings."
         ),
@@ -138,9 +148,11 @@ CLAIMS = {
             "Kernel-checked: Kinds.pres_func (one conversion keeps every parameter's prose, type and explicit default and only "
             "fills absent defaults), norm_pres (names and order kept; return entry kept or lost, never invented), norm_func_idem, "
             "for ALL descriptions (no size bound). These theorems speak about Kinds.norm, an interface-level model of "
-            "emit.function followed by parse.function (the AST construction itself is not yet modelled statement by statement); "
-            "the tie is the differential run: for every generated description inside Kinds.dom the real emit -> ast.unparse -> "
-            "ast.parse -> parse result must equal Kinds.norm. The property predicate (names, order, types, prose, explicit "
+            "emit.function followed by parse.function. Behind it: FuncAttr.funcRT_eq_norm (one parameter through set_value, "
+            "func_arg2param and _infer_default IS Kinds.normFuncParam on the typed domain) and Sig.pairArgs_get / "
+            "emit_then_pair (the padding + pairing step of parse.function gives every argument its own default; old-code "
+            "witness pairArgsOld_shifts). The ties are differential runs: whole description, every entry alone, and the "
+            "func_attr layer, through the emitted text and (30% of the cases) tree to tree, against the real code. The property predicate (names, order, types, prose, explicit "
             "defaults with their Python type, permitted normalisation only) runs on the real code for every case, inside and "
             "outside that domain; the classes where it fails today are recorded findings."
         ),
